@@ -17,7 +17,7 @@ HOSTS = [["h", "com"], ["api", "h", "com"]]
 
 # ------------------------------------------------------------------------------------------------ case construction
 def named(flows):
-    return [dict(f, name="f%d" % (i + 1)) for i, f in enumerate(flows)]
+    return [dict(f, name="f%d" % (i + 1), ans=f.get("ans", 0)) for i, f in enumerate(flows)]
 
 
 def all_orders(n, rng=None, limit=6):
@@ -148,6 +148,72 @@ def rand_case(rng, maxflows, ntx, sys_ok=True):
     return case_of(flows, rand_txns(rng, flows, ntx), rng)
 
 
+# -- requests answered inside the gateway (early response): one flow of the configuration answers, the flows are looked up
+#    again for the generated response - the other flows carry status / header / query / method constraints
+def early_case(rng, flows, txns):
+    flows = [dict(f, typ="user") for f in flows]
+    base = rng.choice(flows)
+    ans = {"pat": base["pat"], "m": [], "h": [], "q": [], "s": [], "typ": "user", "ans": rng.choice([200, 403, 500, 503])}
+    x = rng.random()
+    if x < 0.25:
+        ans["m"] = ["GET"]
+    elif x < 0.4 and base["pat"][1] and base["pat"][1][-1] != "*":
+        ans["pat"] = [base["pat"][0], base["pat"][1] + ["*"]] if rng.random() < 0.5 else [base["pat"][0], base["pat"][1][:-1] + ["*"]]
+    # a sibling that asks for the very status the gateway generates, and one that asks for another one
+    if rng.random() < 0.5:
+        flows.append({"pat": base["pat"], "m": [], "h": [], "q": [], "s": [ans["ans"]], "typ": "user"})
+    if rng.random() < 0.5:
+        flows.append({"pat": base["pat"], "m": [], "h": [], "q": [], "s": [404, 502], "typ": "user"})
+    pos = rng.randrange(len(flows) + 1)
+    flows = flows[:pos] + [ans] + flows[pos:]
+    return dict(case_of(flows, [t for t in txns if t["side"] == "req"], rng), builds=6)
+
+
+# -- quota resources: the engine generates one system flow per distinct quota filter; configurations of 2-3 quotas whose
+#    filters differ in exactly one component (or in none), next to user flows
+def vary(rng, f):
+    g = json.loads(json.dumps(f))
+    comp = rng.choice(["m", "m", "h", "q", "s", "url", "none"])
+    if comp == "m":
+        g["m"] = rng.choice([["POST"], ["GET", "HEAD"], ["PUT", "POST"]]) if f["m"] else ["GET"]
+        if g["m"] == f["m"]:
+            g["m"] = ["DELETE"]
+    elif comp == "h":
+        g["h"] = [["X-Key", "v2"]] if f["h"] else [["X-Key", "v1"]]
+    elif comp == "q":
+        g["q"] = [["k", "2"]] if f["q"] else [["k", "1"]]
+    elif comp == "s":
+        g["s"] = [200] if f["s"] else [500, 503]
+    elif comp == "url":
+        host, path = f["pat"]
+        body = [s for s in path if s != "*"]
+        opts = [body + ["*"]] if path == body else [body]
+        if body:
+            last = "b" if body[-1] != "b" else "a"
+            opts += [body[:-1] + [last], body[:-1] + ["{%s}" % PN[len(body) - 1]]]
+        g["pat"] = [host, rng.choice([o for o in opts if o != path] or [path + ["c"]])]
+    return g
+
+
+def quota_case(rng, ntx):
+    pool = []
+    base = rand_flow(rng, pool, sys_ok=False)
+    base["s"] = [] if rng.random() < 0.8 else base["s"]
+    if base["pat"][0] == ["*"]:
+        base["pat"] = [HOSTS[0], ["a"]]
+    qs = [base]
+    for _ in range(rng.choice([1, 1, 2])):
+        qs.append(vary(rng, rng.choice(qs)))
+    flows = [dict(q, typ="quota") for q in qs]
+    for _ in range(rng.choice([0, 1, 1])):
+        flows.append(dict(vary(rng, rng.choice(qs)), typ="user"))
+    c = case_of(flows, rand_txns(rng, flows, ntx), rng)
+    for i, f in enumerate(c["flows"]):
+        if f["typ"] == "quota":
+            f["name"] = "q%d" % (i + 1)
+    return dict(c, builds=3)
+
+
 # ------------------------------------------------------------------------------------------------ execution / judging
 def execute(ctx, binary, mode, cases, tag):
     d = ctx.sub("run-" + tag)
@@ -227,8 +293,15 @@ def flatten(ch, mode):
 def witness_of(mode, rs, x, info):
     verd = dict((n, v) for n, v in info["verdicts"])
     sels = x["sels"]
+    early = [e for e in x.get("early", []) if e.get("st", 0) > 0]
     ran_no = sorted({n for s in sels for n in s if verd.get(n) == "no"})
     miss_yes = sorted({n for n, v in verd.items() if v == "yes" and any(n not in s for s in sels)})
+    if early:
+        # request answered inside the gateway: the flows behind the answering one are not started (not a C03 matter);
+        # what is judged is the second lookup, for the generated response
+        everd = dict((n, v) for n, v in info.get("everdicts", []))
+        miss_yes = sorted({n for n, v in everd.items() if v == "yes" and any(n not in e["rsel"] for e in early)})
+        ran_no = sorted(set(ran_no) | {n for e in early for n in e["rsel"] if everd.get(n) == "no"})
     if ran_no:
         cls = "ran-although-filter-not-satisfied"
     elif miss_yes:
@@ -237,11 +310,15 @@ def witness_of(mode, rs, x, info):
         cls = "selection-depends-on-load-order"
     elif not info["passthrough"]:
         cls = "actions-on-unmatched-transaction"
+    elif not info.get("zone", True):
+        cls = "open-zone-decided-differently-for-one-url"
     else:
         cls = "selected-unknown-flow"
     return {"class": cls, "level": mode, "txn": x["x"], "sels": sels, "verdicts": info["verdicts"],
+            "after_early_response": bool(early), "early": x.get("early", []), "everdicts": info.get("everdicts", []),
+            "quotas": sorted(f["name"] for f in rs["flows"] if f["typ"] == "quota"),
             "ran_unsatisfied": ran_no, "missed_satisfied": miss_yes, "order_dependent": not info["orderind"],
-            "flows": [{k: f[k] for k in ("name", "pat", "m", "h", "q", "s", "typ")} for f in rs["flows"]]}
+            "flows": [{k: f[k] for k in ("name", "pat", "m", "h", "q", "s", "typ", "ans")} for f in rs["flows"]]}
 
 
 class Judge:
@@ -262,8 +339,13 @@ class Judge:
             i, ch = it
             ev, index = flatten(ch, mode)
             return index, tlc_judge(ctx, ev, "%s-%d" % (tag, i))
-        nrej = 0
-        for index, (rej, drift, nt) in parallel(one, list(enumerate(chs)), n=6):
+        nrej = nnt = nearly = nq = 0
+        for index, (rej, drift, nt) in parallel(one, list(enumerate(chs)), n=2):
+            nnt += len(nt)
+            for item in index:
+                if item is not None:
+                    nearly += any(e.get("st", 0) > 0 and len(e["rsel"]) > 0 for e in item[1].get("early", []))
+                    nq += any(f["typ"] == "quota" and any(f["name"] in sl for sl in item[1]["sels"]) for f in item[0]["flows"])
             for ln, item in enumerate(index, start=2):
                 if item is None:
                     continue
@@ -293,7 +375,13 @@ class Judge:
                     {"name": f["name"], "url": ".".join(f["pat"][0]) + "".join("/" + s for s in f["pat"][1]),
                      "m": f["m"], "h": f["h"], "q": f["q"], "s": f["s"], "typ": f["typ"]} for f in rs["flows"]],
                     "orders": rs["orders"], "txn": xs[len(xs) // 2]["x"], "selected_per_order": xs[len(xs) // 2]["sels"]})
-        ctx.log("%s: %d cases, %d events judged by FilterTrace, %d rejected" % (tag, len(cases), sum(len(x) for _, x in ce), nrej))
+        ctx.log("%s: %d cases, %d events judged by FilterTrace, %d rejected (%d non-trivial, %d answered early, %d with a quota selected)" % (
+            tag, len(cases), sum(len(x) for _, x in ce), nrej, nnt, nearly, nq))
+        # non-vacuity of the directed jobs
+        if tag == "early" and nearly < 20:
+            raise Broken("early-response job: only %d requests were answered inside the gateway" % nearly)
+        if tag == "quota" and (nq < 20 or nnt < 20):
+            raise Broken("quota job: only %d events selected a quota / %d non-trivial" % (nq, nnt))
         return nrej
 
     def report(self, mode, rs, x, info, cases):
@@ -395,7 +483,7 @@ def phase1(ctx, sd):
         if it == "A":
             return generate(ctx, sd, "A", {}, {"GenFlows": "<- FlowsA", "GenTxns": "<- TxnsA", "GenMaxFlows": "3"})
         return generate(ctx, sd, "B", {"MaxPath": "1"}, {"GenFlows": "<- FlowsB1", "GenTxns": "<- TxnsB", "GenMaxFlows": "2"})
-    res = parallel(one, tasks, n=(8 if not T else 4))
+    res = parallel(one, tasks, n=4)
     ctx.log("non-vacuity: %d deviating variants of I refuted" % len(broken))
     # non-vacuity of the instances themselves: every verdict, every open zone and the multi-flow situations were reached
     seen = set()
@@ -468,7 +556,17 @@ def run(ctx):
     jobs.append(("tree", rcases, "rand"))
     jobs.append(("engine", [dict(c, flows=[dict(f, typ="user") for f in c["flows"]]) for c in rcases[: (40 if not T else 300)]],
                  "rand-engine"))
-    parallel(lambda j: judge.run(*j), jobs, n=(6 if not T else 3))
+    # (3b) engine level only: requests answered inside the gateway next to flows with status / header / query / method
+    #      constraints (the flows are looked up a second time, for the generated response), and the system flows the
+    #      engine generates from quota resources whose filters differ in one component
+    bu = [c["fl"] for c in genB["configs"] if all(f["typ"] == "user" for f in c["fl"])]
+    reqB = [t for t in genB["txns"] if t["side"] == "req"]
+    ne, nq = (40, 60) if not T else (300, 400)
+    ecases = [early_case(ctx.rng, ctx.rng.choice(bu), reqB) for _ in range(ne)]
+    ecases += [early_case(ctx.rng, c["flows"], c["txns"]) for c in rcases[: ne]]
+    jobs.append(("engine", ecases, "early"))
+    jobs.append(("engine", [quota_case(ctx.rng, 30) for _ in range(nq)], "quota"))
+    parallel(lambda j: judge.run(*j), jobs, n=(4 if not T else 3))
 
     if judge.drift:
         ctx.cov["model_drift"] = True
@@ -509,7 +607,14 @@ def selftest(ctx, binary):
     bad = json.loads(json.dumps(ev))
     results.append(("as-found model vs repaired code", tlc_judge(ctx, [bad[0],
                     {"ev": "reset", "flows": named([fl(["a"])]), "orders": [[1]]},
-                    {"ev": "x", "x": rq(["a", "b"]), "sels": [[]], "nact": -1}], "selftest4", cfg="FilterTrace_asfound.cfg")[1]))
+                    {"ev": "x", "x": rq(["a", "b"]), "sels": [[]], "nact": -1, "early": []}], "selftest4", cfg="FilterTrace_asfound.cfg")[1]))
+    # (d) an open zone decided differently for the same URL on the two sides of a transaction
+    z = [ev[0], {"ev": "reset", "flows": named([fl(["a", "*"])]), "orders": [[1]]},
+         {"ev": "x", "x": rq(["a"]), "sels": [["f1"]], "nact": -1, "early": []},
+         {"ev": "x", "x": {"side": "resp", "url": [H, ["a"]], "method": "GET", "hdr": [], "qry": [], "status": 200},
+          "sels": [[]], "nact": -1, "early": []}]
+    zr = tlc_judge(ctx, z, "selftest5")[0]
+    results.append(("open zone decided differently on request and response", zr if any(not i.get("zone", True) for i in zr.values()) else {}))
     for label, r in results:
         if not r:
             raise Broken("self-test: '%s' was accepted by the trace specification" % label)
